@@ -608,7 +608,12 @@ fn scopes_cases(r: &mut Rng, n: usize) -> Vec<Case> {
     for ty in [
         LTy::Int(lit(2147483647), lit(2147483647)), LTy::Int(lit(2147483647), lit(2147483648)), LTy::Int(lit(2147483648), lit(2147483648)),
         LTy::Int(LE::Un("neg", Box::new(lit(2147483648))), lit(0)), LTy::Int(LE::Un("neg", Box::new(lit(2147483649))), lit(0)), LTy::Int(lit(0), LE::Un("neg", Box::new(lit(1)))), LTy::Int(lit(3), lit(3)),
-        LTy::Int(lit(9223372036854775807), lit(9223372036854775807)), LTy::Int(LE::Lit(LV::B(true)), lit(3)), LTy::Int(num(1.0), lit(3)),
+        LTy::Int(lit(9223372036854775807), lit(9223372036854775807)),
+        // both bounds near OPPOSITE ends of the i64 range (their difference does not fit i64)
+        LTy::Int(LE::Un("neg", Box::new(lit(9223372036854775807))), lit(9223372036854775807)), LTy::Int(lit(9223372036854775807), LE::Un("neg", Box::new(lit(9223372036854775807)))),
+        LTy::Int(LE::Un("neg", Box::new(lit(9223372036854775807))), lit(1)), LTy::Int(LE::Un("neg", Box::new(lit(2))), lit(9223372036854775807)),
+        LTy::Int(LE::Bin("sub", Box::new(LE::Un("neg", Box::new(lit(9223372036854775807)))), Box::new(lit(1))), lit(9223372036854775807)),
+        LTy::Int(LE::Un("neg", Box::new(lit(4611686018427387905))), lit(4611686018427387905)), LTy::Int(LE::Un("neg", Box::new(lit(2147483649))), lit(2147483648)), LTy::Int(LE::Lit(LV::B(true)), lit(3)), LTy::Int(num(1.0), lit(3)),
         LTy::NNReal(Some((LE::Un("neg", Box::new(num(0.5))), lit(1)))), LTy::NNReal(Some((lit(2), lit(1)))), LTy::NNReal(Some((lit(0), lit(0)))), LTy::NNReal(Some((LE::Lit(LV::B(true)), num(1.5)))),
         LTy::Real(Some((lit(2), lit(1)))), LTy::Real(Some((lit(1), lit(1)))), LTy::Real(Some((LE::Var("MinusInfinity".into()), LE::Var("Infinity".into())))), LTy::Real(Some((LE::Var("Infinity".into()), LE::Var("MinusInfinity".into())))),
         LTy::Real(Some((LE::Lit(LV::S("a".into())), lit(1)))), LTy::Real(None), LTy::NNReal(None), LTy::Bool,
